@@ -14,7 +14,9 @@ RULE = (
     "stores are built from <=3 file objects, <=2 directory objects over them (shared files, a listed "
     "file that is absent), an unused directory object and a stray file; used sets range over store ids, "
     "an absent id and an id of another algorithm; x shallow/expanding x dry/real x store class x "
-    "read-only x loadable/corrupt/missing directory object in cache_odb x the container kind in which the "
+    "read-only x cache_odb (omitted = the store itself | a second store | a second odb object over the "
+    "store's directory; of the same or of the OTHER algorithm (md5 / md5-dos2unix) and class; holding all / "
+    "some / none of the directory objects, loadable / corrupt / not-a-list / missing) x the container kind in which the "
     "used set is handed to gc (list, set, tuple, frozenset, generator, iter(list), map object; drawn from "
     "the seeded rng - the one-shot kinds can be consumed only once). quick: seeded sample; thorough: "
     "the full product. On top: a LARGE-store stream (the small structure plus 1000..2300 tiny planted file "
@@ -24,6 +26,10 @@ RULE = (
     "least one, or raised."
 )
 ASSUMPTIONS = [
+    "cache_odb enters the model as what it can load (g_trees) plus its algorithm name (g_cache_alg, carried but "
+    "never read: C06_cache_alg_irrelevant); the used set is filtered by the COLLECTED store's algorithm "
+    "(C06_other_alg); only md5 and md5-dos2unix stores are exercised (the algorithms Tree.load can read "
+    "listings for)",
     "odb.all() lists exactly the files at <root>/<2 chars>/<rest> (dvc_objects; observed independently by os.listdir)",
     "Tree.load raises FileNotFoundError / ObjectFormatError for a missing / unparsable directory object",
     "the model takes the used set as a list: the claim checked is that gc is agnostic to the container kind "
@@ -142,7 +148,12 @@ def run_case(ctx, case, fo, dirs, F):
     store = os.path.join(root, "store")
     cache = os.path.join(root, "cache") if case.get("sep_cache") else store
     cls = case.get("cls", "local")
-    alg = case.get("alg", "md5")
+    alg = case.get("alg", "md5")  # algorithm of the COLLECTED store
+    # cache_odb: omitted | a second store (sep_cache) | a second odb object over the store's own
+    # directory (cache_at_store); of the same or of ANOTHER algorithm / class than the store
+    explicit_cache = bool(case.get("sep_cache") or case.get("cache_at_store"))
+    cache_alg = case.get("cache_alg", alg)
+    cache_cls = case.get("cache_cls", cls)
     for fi in case["files"]:
         impl.plant(store, fo[fi], F[fi])
     doid = {}
@@ -176,7 +187,7 @@ def run_case(ctx, case, fo, dirs, F):
     # when cache == store, planting into the cache changed the store: re-observe
     before = impl.walk_store(store)
     odb = impl.make_odb(cls, store, read_only=case.get("ro", False), hash_name=alg)
-    cache_odb = impl.make_odb(cls, cache, hash_name=alg) if cache != store else None
+    cache_odb = impl.make_odb(cache_cls, cache, hash_name=cache_alg) if explicit_cache else None
     case_used = [(n, v) for n, v in case["used"]]
     case_used += [("md5", f"B{i}") for i in case.get("bulk", {}).get("used", [])]
     kind = case.get("used_kind", "list")
@@ -209,10 +220,12 @@ def run_case(ctx, case, fo, dirs, F):
     def cset(oids):  # vset with the cheaper literals (sorted by code point, deduplicated)
         return vset(oids) if not hexnames else "VL [" + "; ".join(f"VB {coid(o)}" for o in sorted(set(oids))) + "]"
 
-    inp = ("{| g_store := %s; g_alg := %s; g_ro := %s; g_used := %s; g_trees := %s; g_shallow := %s; g_dry := %s |}"
+    inp = ("{| g_store := %s; g_alg := %s; g_ro := %s; g_used := %s; g_trees := %s; g_cache_alg := %s; "
+           "g_shallow := %s; g_dry := %s |}"
            % (clist([coid(o) for o in sorted(before)]), cbytes(alg), cbool(case.get("ro", False)),
               clist([cpair(cbytes(h.name), cbytes(h.value)) for h in order]),
-              clist(trees_term), cbool(case["shallow"]), cbool(case["dry"])))
+              clist(trees_term), copt(cbytes(cache_alg) if explicit_cache else None),
+              cbool(case["shallow"]), cbool(case["dry"])))
     if res[0] == "ok":
         exp = vL([vN(1), vN(res[1]), cset(after.keys())])
     elif res[0] == "err":
@@ -285,6 +298,34 @@ def load_corpus():
     return out
 
 
+OTHER_ALG = {"md5": "md5-dos2unix", "md5-dos2unix": "md5"}
+
+
+def sprinkle_cache(rng, c, dirnames):
+    """the cache_odb dimension: omitted (defaults to the store) | a second store | a second odb
+    object over the store's directory; same or ANOTHER algorithm (md5 vs md5-dos2unix) and class;
+    the second store holds all / some / none of the directory objects (ok / missing / corrupt)"""
+    r = rng.random()
+    if r < 0.4:
+        c["sep_cache"] = True
+        if rng.random() < 0.5:
+            c["cache_alg"] = OTHER_ALG[c.get("alg", "md5")]
+        if rng.random() < 0.3:
+            c["cache_cls"] = "base" if c.get("cls", "local") == "local" else "local"
+        h = rng.random()
+        if h < 0.25:  # holds none of them
+            c["cache_state"] = {dn: "missing" for dn in dirnames}
+        elif h < 0.6:  # holds some
+            st = dict(c.get("cache_state", {}))
+            for dn in dirnames:
+                if dn not in st and rng.random() < 0.4:
+                    st[dn] = rng.choice(["missing", "missing", "corrupt", "notalist"])
+            c["cache_state"] = st
+    elif r < 0.5:
+        c["cache_at_store"] = True
+        c["cache_alg"] = OTHER_ALG[c.get("alg", "md5")] if rng.random() < 0.7 else c.get("alg", "md5")
+
+
 def gen_bulk(ctx, cases):
     """large- and medium-store cases: a small structural case + planted bulk file objects.
     The number of UNUSED bulk objects is what a batching implementation would count: put it on and
@@ -316,8 +357,9 @@ def gen_bulk(ctx, cases):
         n = unused + k
         c = {**base, "dry": dry, "cls": cls, "used_kind": rng.choice(USED_KINDS),
              "bulk": {"n": n, "shape": shape, "used": sorted(rng.sample(range(n), k))}}
-        if rng.random() < 0.3:
-            c["sep_cache"] = True
+        if rng.random() < 0.25:
+            c["alg"] = "md5-dos2unix"
+        sprinkle_cache(rng, c, ["D1", "D2", "D3"])
         if rng.random() < 0.2:
             c["stray"] = True
         out.append(c)
@@ -341,12 +383,11 @@ def run(ctx):
             c["ro"] = True
         if ctx.rng.random() < 0.3:
             c["stray"] = True
-        if ctx.rng.random() < 0.3:
-            c["sep_cache"] = True
         if ctx.rng.random() < 0.25:
             c["cache_state"] = {ctx.rng.choice(list(dirs)): ctx.rng.choice(["corrupt", "notalist", "missing"])}
         if ctx.rng.random() < 0.15:
             c["alg"] = "md5-dos2unix"
+        sprinkle_cache(ctx.rng, c, list(dirs))
         c["used_kind"] = ctx.rng.choice(USED_KINDS)
     bulk_cases = gen_bulk(ctx, cases)
     corpus = load_corpus() + [
@@ -363,6 +404,10 @@ def run(ctx):
         ctx.count("mode:" + ("shallow" if c["shallow"] else "expand") + ("/dry" if c["dry"] else "/real"))
         ctx.count("class:" + c.get("cls", "local"))
         ctx.count("used_as:" + c.get("used_kind", "list"))
+        ctx.count("cache_odb:" + ("omitted" if not (c.get("sep_cache") or c.get("cache_at_store")) else
+                                  ("second-store" if c.get("sep_cache") else "second-odb-on-store-dir") +
+                                  ("/other-alg" if c.get("cache_alg", c.get("alg", "md5")) != c.get("alg", "md5")
+                                   else "/same-alg")))
         b = c.get("bulk")
         if b:
             ctx.count("store:" + ("large(>=1000)" if b["n"] >= 1000 else "medium(20..999)") + "/" + b["shape"]
